@@ -246,6 +246,7 @@ def units(ctx):
 
 
 SPEC = Spec(
+    lean=['IntervalMeasure.lean', 'Folds.lean'],
     prop=PROP, level="proof",
     functions=[(UT, "merge_kernel_intervals"), (CA, "CommunicationAnalysis.get_comm_comp_overlap.get_comm_comp_overlap_value"), (CA, "CommunicationAnalysis.get_comm_comp_overlap")],
     units=units, bounded=[Bounded("overlap_vs_measure", bounded)],
